@@ -33,19 +33,21 @@ theorem skeleton_readers :
 
 theorem skeleton_setIfEquals :
     Gen.RefsFS.skel_setIfEquals = [
-      "call:follow", "call:get_packed_refs", "cmp:packed_refs.get(probe_ref, None) is not None",
-      "raise:NotADirectoryError(filename)", "call:GitFile", "cmp:old_ref is not None", "call:read_loose_ref",
-      "cmp:orig_ref is None", "call:get_packed_refs", "cmp:orig_ref != old_ref", "call:abort", "return:False",
-      "call:abort", "raise:", "call:read_loose_ref", "cmp:current_ref is None", "cmp:current_ref is not None",
-      "cmp:current_ref == new_ref", "call:abort", "return:True", "call:write", "call:abort", "raise:",
-      "return:True"] := by
+      "call:follow", "call:_check_packed_conflict", "call:get_packed_refs", "call:GitFile",
+      "cmp:old_ref is not None", "call:read_loose_ref", "cmp:orig_ref is None", "call:get_packed_refs",
+      "cmp:orig_ref != old_ref", "call:abort", "return:False", "call:abort", "raise:", "call:read_loose_ref",
+      "cmp:current_ref is None", "cmp:current_ref is not None", "cmp:current_ref == new_ref", "call:abort",
+      "return:True", "call:_remove_empty_directories", "call:write", "call:abort", "raise:", "return:True"] ∧
+    Gen.RefsFS.skel_checkPackedConflict = [
+      "call:get_packed_refs", "cmp:packed_refs.get(probe_ref, None) is not None",
+      "raise:NotADirectoryError(filename)", "raise:IsADirectoryError(filename)"] := by
   decide
 
 theorem skeleton_addIfNew :
     Gen.RefsFS.skel_addIfNew = [
-      "call:follow", "cmp:contents is not None", "return:False", "call:GitFile", "call:exists",
-      "cmp:realname in self.get_packed_refs()", "call:get_packed_refs", "call:abort", "return:False",
-      "call:write", "call:abort", "raise:", "return:True"] ∧
+      "call:follow", "cmp:contents is not None", "return:False", "call:_check_packed_conflict", "call:GitFile",
+      "call:_remove_empty_directories", "call:exists", "cmp:realname in self.get_packed_refs()",
+      "call:get_packed_refs", "call:abort", "return:False", "call:write", "call:abort", "raise:", "return:True"] ∧
     Gen.RefsFS.addIfNewChecksName = false := by
   decide
 
@@ -53,8 +55,8 @@ theorem skeleton_removeIfEquals :
     Gen.RefsFS.skel_removeIfEquals = [
       "call:GitFile", "cmp:old_ref is not None", "call:read_loose_ref", "cmp:orig_ref is None",
       "call:get_packed_refs", "cmp:orig_ref is None", "cmp:orig_ref != old_ref", "return:False",
-      "call:lexists", "call:_remove_packed_ref", "call:remove", "call:abort", "cmp:parent == b'refs'",
-      "return:True"] ∧
+      "call:lexists", "call:_remove_packed_ref", "call:isdir", "call:islink", "call:_remove_empty_directories",
+      "call:remove", "call:abort", "cmp:parent == b'refs'", "return:True"] ∧
     Gen.RefsFS.rmLooseBeforePacked = false ∧
     Gen.RefsFS.skel_removePackedRef = [
       "cmp:name not in self.get_packed_refs()", "call:get_packed_refs", "return:", "call:GitFile",
@@ -67,10 +69,11 @@ theorem skeleton_removeIfEquals :
 theorem skeleton_packRefs :
     Gen.RefsFS.skel_addPackedRefs = [
       "return:", "call:GitFile", "call:copy", "call:get_packed_refs", "cmp:ref == HEADREF",
-      "raise:ValueError('cannot pack HEAD')", "cmp:target is not None", "call:pop", "call:write_packed_refs",
-      "cmp:target is not None", "call:_prune_loose_ref", "call:remove", "call:_invalidate_packed_refs_cache"] ∧
+      "raise:ValueError('cannot pack HEAD')", "cmp:ref in packed_refs", "cmp:packed_refs[ref] != target",
+      "call:pop", "cmp:target is not None", "call:pop", "call:write_packed_refs", "cmp:target is not None",
+      "call:_prune_loose_ref", "call:remove", "call:_invalidate_packed_refs_cache"] ∧
     Gen.RefsFS.skel_packRefs = [
-      "call:allkeys", "cmp:ref == HEADREF", "assign:sha = self[ref]", "getitem:self[ref]",
+      "call:allkeys", "cmp:ref == HEADREF", "call:read_ref",
       "call:add_packed_refs(refs_to_pack, prune_only_if_unchanged=True)"] ∧
     Gen.RefsFS.skel_pruneLooseRef = [
       "call:GitFile", "return:", "call:read_loose_ref", "cmp:self.read_loose_ref(name) == expected",
@@ -81,7 +84,8 @@ theorem skeleton_packRefs :
 
 theorem skeleton_setSymbolicRef :
     Gen.RefsFS.skel_setSymbolicRef = [
-      "call:GitFile", "call:write", "call:follow", "call:abort", "raise:", "call:close"] := by
+      "call:_check_packed_conflict", "call:GitFile", "call:_remove_empty_directories", "call:write",
+      "call:follow", "call:abort", "raise:", "call:close"] := by
   decide
 
 theorem skeleton_lockFile :
@@ -439,7 +443,7 @@ def SymrefUpdateStatement (vr : Variant) : Prop :=
 /-- the symref is followed outside any lock: the update lands on the old target after HEAD was re-pointed -/
 theorem symref_retarget_counterexample : ¬ SymrefUpdateStatement Variant.coded := by
   intro h
-  have := h [0, 0, 0, 0, 0, 0, 0, 0, 1, 1, 1, 1, 1, 1, 2, 2, 0]
+  have := h (List.replicate 9 0 ++ List.replicate 9 1 ++ [2, 2, 2, 2, 0, 0, 0])
   revert this
   decide
 
@@ -455,7 +459,7 @@ def CreateSurvivesUnpackStatement (vr : Variant) : Prop :=
 ref lock: the create that succeeds in between is destroyed -/
 theorem add_packed_refs_none_loses_create_counterexample : ¬ CreateSurvivesUnpackStatement Variant.coded := by
   intro h
-  have := h [1, 1, 1, 1, 1, 0, 0, 0, 0, 0, 0, 0, 0, 1, 1]
+  have := h ([1, 1, 1, 1, 1] ++ List.replicate 11 0 ++ [1, 1, 1])
   revert this
   decide
 
@@ -595,7 +599,7 @@ theorem lost_commit_counterexample : ¬ CommitNotLostStatement 2 := by
 /-- the same on the full file-system model with the two-read order of `WorkTree.commit` before fix 7e0c6ae: both commits report success with parent 1, the branch ends at 100, 101 is lost. -/
 theorem lost_commit_disk_counterexample :
     let progs : List (List Op) := [[.commit 0 100], [.commit 0 101]]
-    let sched := [0, 0, 0, 1, 1, 1, 1, 1, 1, 1, 1, 1, 1, 1, 1, 1, 0, 0, 0, 0, 0, 0, 0, 0, 0, 0, 0]
+    let sched := [0, 0, 0] ++ List.replicate 17 1 ++ List.replicate 16 0
     finalOuts Variant.bb5afda (fsLoose 1) progs sched 0 = [.committed 100 (some 1)] ∧
     finalOuts Variant.bb5afda (fsLoose 1) progs sched 1 = [.committed 101 (some 1)] ∧
     finalVal Variant.bb5afda (fsLoose 1) progs sched 1 = some (.sha 100) := by
@@ -604,7 +608,7 @@ theorem lost_commit_disk_counterexample :
 /-- as coded now (single read) the same schedule makes actor 0 the loser (CommitError), nothing is lost -/
 example :
     let progs : List (List Op) := [[.commit 0 100], [.commit 0 101]]
-    let sched := [0, 0, 0, 1, 1, 1, 1, 1, 1, 1, 1, 1, 1, 1, 1, 1, 0, 0, 0, 0, 0, 0, 0, 0, 0, 0, 0]
+    let sched := [0, 0, 0] ++ List.replicate 17 1 ++ List.replicate 16 0
     finalOuts Variant.coded (fsLoose 1) progs sched 0 = [.exc .commit] ∧
     finalOuts Variant.coded (fsLoose 1) progs sched 1 = [.committed 101 (some 1)] ∧
     finalVal Variant.coded (fsLoose 1) progs sched 1 = some (.sha 101) := by
